@@ -207,7 +207,8 @@ Definition init_work_s (params : bytes) : ires :=
       let base := [(s_node, n); (s_worktype, t)] in
       let fl := match rest with
                 | [] => base
-                | _ => base ++ [(s_params, concat (map (fun x => 32 :: x) rest))]  (* value not inspected *)
+                | x :: more => base ++ [(s_params, x ++ concat (map (fun y => 32 :: y) more))]
+                                                (* strings.Join(tokens[3:], " "): only its emptiness matters *)
                 end in
       IOk (PWork sub (mkwp None None fl))
     | _ => IErr
